@@ -1568,7 +1568,7 @@ func (fr *frame) enterLoop(h *ssa.BasicBlock, li *loopInfo, cur *state) {
 			inLoop := false
 			for b := range li.blocks {
 				for _, in := range b.Instrs {
-					if ci, ok := in.(ssa.CallInstruction); ok && fr.anchorText(ci.Pos(), "callfull") == text {
+					if ci, ok := in.(ssa.CallInstruction); ok && matchCall(text, fr.anchorText(ci.Pos(), "callfull")) {
 						inLoop = true
 					}
 				}
